@@ -173,3 +173,38 @@ class C02(Monitor):
                     'local_settings', 'clear_outbound_data_buffer', 'set_local_settings'):
             if fr:
                 bad('query emitted frames')
+
+    def finish(self, w):
+        """Partial reads: the byte stream handed out through arbitrary data_to_send(amount) calls interleaved
+        with the other calls must still be a well-formed frame sequence (lazy-read twin)."""
+        if self.violations:
+            return
+        from .. import twins
+        from ..tap import Tap
+        for ep in ('c', 's'):
+            e = w.eps[ep]
+            if any(f.type == C.GOAWAY for s in e.log if s.kind == 'recv' for f in s.in_frames) or not e.log or any(s.kind == 'call' and s.op == 'clear_outbound_data_buffer' for s in e.log):
+                continue
+            lazy, bad = twins.run_lazy(w, ep, twins.twin_rng(w, ep, 'lazy-c02'))
+            tap = Tap(expect_preface=e.client)
+            frames = tap.feed(lazy)
+            self.probe('lazy_read_parsed')
+            problem = None
+            if tap.preface_bad:
+                problem = 'output does not start with the client preface'
+            elif tap.buf:
+                problem = 'output ends inside a frame'
+            elif tap.in_block():
+                problem = 'output ends inside a header block'
+            else:
+                for f in frames:
+                    if f.bad is not None:
+                        problem = '%s: %s' % (f.name, f.bad[1])
+                        break
+                    if f.type in (C.HEADERS, C.PUSH_PROMISE) and f.block_frames is not None and f.hpack_error:
+                        problem = 'undecodable header block'
+                        break
+            if problem:
+                self.fail('partial-read-stream', 'bytes taken with partial data_to_send(amount) reads do not form valid frames: %s' % problem,
+                          None, endpoint=ep)
+                return
